@@ -67,7 +67,8 @@ func HarnessC08_Loop() {
 	observe := vfChoice("observe", 2) == 1
 	in := vfArbRingL(1, nil, 0, now0, true)
 	store := &vfKV{val: vfCloneDesc(in)}
-	l := vfNewLifecycler(store, numTokens, &vfRandSrc{max: numTokens + 3})
+	flusher := &vfFlusher{gate: make(chan struct{})}
+	l := vfNewLifecyclerFT(store, numTokens, &vfRandSrc{max: numTokens + 3}, flusher)
 	l.cfg.JoinAfter = 2 * time.Second
 	if observe {
 		l.cfg.ObservePeriod = 7 * time.Second
@@ -122,8 +123,61 @@ func HarnessC08_Loop() {
 	default:
 		vfAssert(false, "C08 the loop ends when its context ends")
 	}
+	if vfParam("shutdown", 1) == 1 && prevState == ACTIVE {
+		// clean shutdown: leaving is published, heartbeats go on while data is
+		// flushed, then the entry is removed (or kept, if so configured)
+		unreg := vfChoice("unregister_on_shutdown", 2) == 1
+		l.SetUnregisterOnShutdown(unreg)
+		before := vfCloneDesc(store.val.(*Desc))
+		stopDone := make(chan error, 1)
+		go func() { stopDone <- l.stopping(nil) }()
+		vfQuiesce()
+		d = store.val.(*Desc)
+		me, ok = d.Ingesters[vfOwnID]
+		vfAssert(ok && me.State == LEAVING, "C08 a stopping instance publishes leaving")
+		vfAssert(vfSameTokens(me.Tokens, before.Ingesters[vfOwnID].Tokens) && me.RegisteredTimestamp == reg, "C08 leaving keeps tokens and registration time")
+		vfAssert(flusher.flushed == 1, "C08 data is flushed once on shutdown")
+		vfAdvance(5300 * time.Millisecond)
+		elapsed += 5300 * time.Millisecond
+		vfQuiesce()
+		d = store.val.(*Desc)
+		me, ok = d.Ingesters[vfOwnID]
+		nowS := now0 + int64(elapsed/time.Second)
+		vfAssert(ok && me.State == LEAVING && nowS-me.Timestamp <= 5 && me.Timestamp >= prevTs, "C08 the heartbeat is refreshed while the instance is flushing on shutdown")
+		select {
+		case <-stopDone:
+			vfAssert(false, "C08 the instance is not removed before its shutdown work has finished")
+		default:
+		}
+		close(flusher.gate)
+		vfQuiesce()
+		select {
+		case err := <-stopDone:
+			vfAssert(err == nil, "C08 shutdown succeeds")
+		default:
+			vfAssert(false, "C08 shutdown ends once the shutdown work has finished")
+		}
+		d = store.val.(*Desc)
+		me, ok = d.Ingesters[vfOwnID]
+		if unreg {
+			vfAssert(!ok, "C08 a stopped instance removes its own entry")
+		} else {
+			vfAssert(ok && me.State == LEAVING && vfSameTokens(me.Tokens, before.Ingesters[vfOwnID].Tokens), "C08 an instance configured to stay registered is left in the ring as leaving with its tokens")
+		}
+		vfAssert(vfForeignUntouched(in, d), "C08 shutdown edits only the lifecycler's own entry")
+		vfCover("c08-loop-shutdown")
+	}
 	vfCover("c08-loop-done")
 }
+
+// vfFlusher: the application's shutdown work, held at a gate by the harness.
+type vfFlusher struct {
+	gate    chan struct{}
+	flushed int
+}
+
+func (f *vfFlusher) Flush()                            { f.flushed++; <-f.gate }
+func (f *vfFlusher) TransferOut(context.Context) error { return ErrTransferDisabled }
 
 // vfTokensDelegate records what the lifecycler reports as its stable tokens.
 type vfTokensDelegate struct {
